@@ -211,6 +211,29 @@ def _root(b, op):
     return cur
 
 
+def _match_call(b, op):
+    """('call', 'start'|'end', <match local>) if the operand is m.start() / m.end(), also through single-assignment locals
+    (`let gap_end = m.start();`)."""
+    cur = op
+    for _ in range(8):
+        if cur.get("k") not in ("copy", "move") or cur["pl"]["p"]:
+            return None
+        dd = b.single_def(cur["pl"]["l"])
+        if not dd:
+            return None
+        if dd[2] == "call":
+            cal = dd[3].get("callee") or ""
+            if cal.startswith("api::Match::") and dd[3]["args"]:
+                return ("call", cal.split("::")[-1], _root(b, dd[3]["args"][0]))
+            return None
+        rv = dd[3]["rv"]
+        if rv["k"] == "use":
+            cur = rv["op"]
+            continue
+        return None
+    return None
+
+
 def slices_of_text(b):
     """Calls `text[range]`: (bb, range aggregate variant, {field: description})."""
     out = []
@@ -230,10 +253,9 @@ def slices_of_text(b):
             if op["k"] == "const":
                 desc[fname] = ("const", op.get("int"))
                 continue
-            l = op["pl"]["l"]
-            dd = b.single_def(l)
-            if dd and dd[2] == "call" and (dd[3].get("callee") or "").startswith("api::Match::"):
-                desc[fname] = ("call", dd[3]["callee"].split("::")[-1], _root(b, dd[3]["args"][0]))
+            mc = _match_call(b, op)
+            if mc:
+                desc[fname] = mc
             else:
                 desc[fname] = ("local", _root(b, op))
         out.append((bb, agg["variant"], desc, t.get("line")))
@@ -287,8 +309,8 @@ def check_splice(facts):
                     if op["k"] == "const":
                         kinds.append(("const", op.get("int"), d[0]))
                     else:
-                        dd = b.single_def(op["pl"]["l"])
-                        if dd and dd[2] == "call" and (dd[3].get("callee") or "") == "api::Match::end" and _root(b, dd[3]["args"][0]) == m_l:
+                        mc = _match_call(b, op)
+                        if mc and mc[1] == "end" and mc[2] == m_l:
                             kinds.append(("end", None, d[0]))
                         else:
                             kinds.append(("other", None, d[0]))
